@@ -85,5 +85,160 @@ theorem condOf_snoc_gv (v0 : ParsedVoice) (ops : List (CondOp K)) (i : Nat) (x :
   simp only [CondOp.apply, Condition.setGvWeight, (condOf_lengths (K := K) v0 ops).2]
   split_ifs <;> rfl
 
+/-! ### 2. C16 lifted: volume is a pure gain of `synthesize`
+
+  The speed test `f` is a parameter of the model (`speedIsOne : Condition → Bool`, the comparison `speed == 1.0`);
+  the only thing the lifted statements need from it is that it gives the same answer on the two conditions
+  compared. `SpeedOnly f` — "`f` reads the speed setting only" — gives that for every pair below. -/
+
+/-- the speed test reads nothing but the speed setting -/
+def SpeedOnly (f : Condition K → Bool) : Prop := ∀ c c' : Condition K, c.speed = c'.speed → f c = f c'
+
+theorem synthesize_volume_raw (hexp0 : Transc.exp (0 : K) = 1) (fx : Fix) (big : K) (voices : List ParsedVoice)
+    (iw : IW K) (ops : List (CondOp K)) (f : Condition K → Bool) (labels : List (List Char)) (times : List (K × K))
+    (v : K)
+    (hf : ∀ v0, voices.head? = some v0 → f (condOf v0 (ops ++ [.vol v])) = f (condOf v0 (ops ++ [.vol 0]))) :
+    synthesize fx big voices iw (ops ++ [.vol v]) f labels times =
+      (synthesize fx big voices iw (ops ++ [.vol 0]) f labels times).map
+        fun w => w.map (· * Transc.exp (v * Consts.db)) := by
+  cases voices with
+  | nil => rfl
+  | cons v0 vs =>
+    rw [synthesize_cons, synthesize_cons, hf v0 rfl]
+    cases hin : engineIn big (v0 :: vs) iw labels times with
+    | err e => rfl
+    | panic s => rfl
+    | ok inp =>
+      simp only [Outcome.bind]
+      rw [condOf_snoc_vol, condOf_snoc_vol]
+      exact engineSynthesize_setVolume hexp0 fx (condOf v0 ops) v _ inp
+
+/-- **C16 for the whole library.** For every voice set, weights, setter history, label text and time stamps —
+    well-formed or not, whatever the outcome — synthesis after `set_volume(v)` is synthesis after `set_volume(0)`
+    with every sample multiplied by `exp(v·ln10/20)`: same outcome class (same error / panic site), same length. -/
+theorem synthesize_volume (hexp0 : Transc.exp (0 : K) = 1) (fx : Fix) (big : K) (voices : List ParsedVoice)
+    (iw : IW K) (ops : List (CondOp K)) (f : Condition K → Bool) (hf : SpeedOnly f)
+    (labels : List (List Char)) (times : List (K × K)) (v : K) :
+    synthesize fx big voices iw (ops ++ [.vol v]) f labels times =
+      (synthesize fx big voices iw (ops ++ [.vol 0]) f labels times).map
+        fun w => w.map (· * Transc.exp (v * Consts.db)) :=
+  synthesize_volume_raw hexp0 fx big voices iw ops f labels times v (fun v0 _ => hf _ _ (by
+    rw [condOf_snoc_vol, condOf_snoc_vol]; rfl))
+
+/-- … on a well-formed voice set both renderings exist, have the same number of samples, and sample `n` of the one
+    is `exp(v·ln10/20)` times sample `n` of the other -/
+theorem synthesize_volume_samples (hexp0 : Transc.exp (0 : K) = 1) (fx : Fix) (big : K) (voices : List ParsedVoice)
+    (iw : IW K) (h : VoicesWF voices iw) (v0 : ParsedVoice) (hv0 : voices.head? = some v0)
+    (ops : List (CondOp K)) (f : Condition K → Bool) (hf : SpeedOnly f)
+    (labels : List (List Char)) (times : List (K × K))
+    (halign : (condOf (K := K) v0 ops).alignment = true → times.length = labels.length) (v : K) :
+    ∃ w0 w, synthesize fx big voices iw (ops ++ [.vol 0]) f labels times = .ok w0 ∧
+      synthesize fx big voices iw (ops ++ [.vol v]) f labels times = .ok w ∧
+      w.length = w0.length ∧ ∀ n (hn : n < w0.length), w[n]? = some (w0[n] * Transc.exp (v * Consts.db)) := by
+  obtain ⟨_, w0, h0, -⟩ := synthesize_total fx big voices iw h v0 hv0 (ops ++ [.vol 0]) f labels times (by
+    rw [condOf_snoc_vol]; exact halign)
+  refine ⟨w0, w0.map (· * Transc.exp (v * Consts.db)), h0, ?_, by simp, fun n hn => by simp [hn]⟩
+  rw [synthesize_volume hexp0 fx big voices iw ops f hf labels times v, h0]; rfl
+
+/-! ### 4. C08 lifted: the speaking rate scales the utterance -/
+
+/-- the duration Gaussians among the stage inputs are `Models::duration` -/
+theorem engineIn_duration (big : K) (voices : List ParsedVoice) (iw : IW K) (labels : List (List Char))
+    (times : List (K × K)) (inp : EngineIn K) (hin : engineIn big voices iw labels times = .ok inp) :
+    modelsDuration voices iw labels = .ok inp.duration := by
+  cases voices with
+  | nil => simp [engineIn] at hin
+  | cons v0 vs =>
+    unfold engineIn at hin
+    simp only at hin
+    cases hd : modelsDuration (v0 :: vs) iw labels with
+    | err e => simp [hd, Outcome.bind] at hin
+    | panic s => simp [hd, Outcome.bind] at hin
+    | ok dur =>
+      rw [hd] at hin
+      simp only [Outcome.bind] at hin
+      split at hin
+      · simp only [Outcome.ok.injEq] at hin
+        subst hin; rfl
+      · simp at hin
+      · simp at hin
+
+/-- **the speed-1 frame count of a label text**, from the voices: `Σ_states max(1, round(mean))` over the
+    interpolated duration Gaussians (`0` if `Models::duration` does not return) -/
+def frames1 (voices : List ParsedVoice) (iw : IW K) (labels : List (List Char)) : Nat :=
+  match modelsDuration voices iw labels with
+  | .ok dur => (estimateDuration dur 0).sum
+  | _ => 0
+
+theorem frames1_eq (big : K) (voices : List ParsedVoice) (iw : IW K) (labels : List (List Char))
+    (times : List (K × K)) (inp : EngineIn K) (hin : engineIn big voices iw labels times = .ok inp) :
+    frames1 voices iw labels = C08.F1 inp.duration := by
+  unfold frames1
+  rw [engineIn_duration big voices iw labels times inp hin]
+  rfl
+
+/-- at speed 1 (the speed test answers "is one"; no alignment) the utterance has `frames1` frames -/
+theorem synthesize_speed_one (fx : Fix) (big : K) (voices : List ParsedVoice) (iw : IW K) (h : VoicesWF voices iw)
+    (v0 : ParsedVoice) (hv0 : voices.head? = some v0) (ops : List (CondOp K)) (f : Condition K → Bool)
+    (labels : List (List Char)) (times : List (K × K))
+    (halign : (condOf (K := K) v0 ops).alignment = false) (hf : f (condOf v0 ops) = true) :
+    ∃ (durs : List Nat) (w : List K), synthesize fx big voices iw ops f labels times = .ok w ∧
+      w.length = (condOf (K := K) v0 ops).fperiod * durs.sum ∧
+      durs.length = labels.length * v0.global.nstates ∧ (∀ d ∈ durs, 1 ≤ d) ∧
+      durs.sum = frames1 voices iw labels := by
+  obtain ⟨inp, durs, w, hin, hD, hW, hwl, hdl, hdp⟩ :=
+    synthesize_total' fx big voices iw h v0 hv0 ops f labels times (by rw [halign]; intro hc; cases hc)
+  refine ⟨durs, w, hW, hwl, hdl, hdp, ?_⟩
+  rw [frames1_eq big voices iw labels times inp hin]
+  unfold engineDurations at hD
+  rw [halign, hf] at hD
+  simp only [Bool.false_eq_true, if_false, durationCreate, if_true, Outcome.ok.injEq] at hD
+  rw [← hD]; rfl
+
+/-- **C08 for the whole library.** After any setter history that leaves alignment off and ends in `set_speed(s)`,
+    with the speed test answering "not one", synthesis of a non-empty label text on a well-formed voice set returns
+    `frame_period × F` samples, `F = max(round(F₁ / max(s, 1e-6)), labels × states)`, `F₁ = frames1` the speed-1 frame
+    count; one duration per state, each at least one frame. -/
+theorem synthesize_speed (fx : Fix) (big : K) (voices : List ParsedVoice) (iw : IW K) (h : VoicesWF voices iw)
+    (v0 : ParsedVoice) (hv0 : voices.head? = some v0) (ops : List (CondOp K)) (f : Condition K → Bool)
+    (labels : List (List Char)) (times : List (K × K)) (s : K)
+    (halign : (condOf (K := K) v0 ops).alignment = false) (hne : labels ≠ [])
+    (hf : f (condOf v0 (ops ++ [.speed s])) = false) :
+    ∃ (durs : List Nat) (w : List K), synthesize fx big voices iw (ops ++ [.speed s]) f labels times = .ok w ∧
+      w.length = (condOf (K := K) v0 ops).fperiod * durs.sum ∧
+      durs.length = labels.length * v0.global.nstates ∧ (∀ d ∈ durs, 1 ≤ d) ∧
+      durs.sum = max (RoundNat.roundMax1 ((frames1 voices iw labels : K) / maxS s speedMin))
+        (labels.length * v0.global.nstates) := by
+  have hal : (condOf (K := K) v0 (ops ++ [.speed s])).alignment = false := by
+    rw [condOf_snoc_speed]; exact halign
+  obtain ⟨inp, durs, w, hin, hD, hW, hwl, hdl, hdp⟩ :=
+    synthesize_total' fx big voices iw h v0 hv0 (ops ++ [.speed s]) f labels times
+      (by rw [hal]; intro hc; cases hc)
+  obtain ⟨-, -, hidl⟩ := engineIn_total big voices iw h v0 hv0 (ops ++ [.speed s]) labels times
+      (by rw [hal]; intro hc; cases hc) |>.choose_spec
+  have hinp : (engineIn_total big voices iw h v0 hv0 (ops ++ [.speed s]) labels times
+      (by rw [hal]; intro hc; cases hc)).choose = inp := by
+    have := (engineIn_total big voices iw h v0 hv0 (ops ++ [.speed s]) labels times
+      (by rw [hal]; intro hc; cases hc)).choose_spec.1
+    rw [hin, Outcome.ok.injEq] at this
+    exact this.symm
+  rw [hinp] at hidl
+  have hnst : 0 < v0.global.nstates := (h.head v0 hv0).nstates_pos
+  have hlab : 0 < labels.length := List.length_pos_of_ne_nil hne
+  have hdne : inp.duration ≠ [] := by
+    intro he
+    rw [he] at hidl
+    have : 0 < labels.length * v0.global.nstates := Nat.mul_pos hlab hnst
+    simp at hidl
+    omega
+  refine ⟨durs, w, hW, ?_, hdl, hdp, ?_⟩
+  · rw [hwl, condOf_snoc_speed]; rfl
+  · unfold engineDurations at hD
+    rw [hal, hf] at hD
+    simp only [Bool.false_eq_true, if_false] at hD
+    rw [durationCreate_sum inp.duration _ durs hdne hD, hidl,
+      frames1_eq big voices iw labels times inp hin, condOf_snoc_speed]
+    rfl
+
 end Synth
 end Jb
